@@ -21,23 +21,24 @@ import (
 // have been discarded: nothing is emitted, not even late), with and without unrelated traffic in between.
 // All scenarios run concurrently, each on its own processor; wall time is the longest gap (~135 s).
 type rtScenario struct {
-	Name      string `json:"name"`
-	First     string `json:"first_half"` // "session" (LOGIN record + 2 events first) | "login"
-	GapSec    int    `json:"gap_seconds"`
-	BusyEvery int    `json:"unrelated_traffic_every_seconds"` // 0: silence
-	BusyKind  string `json:"unrelated_traffic"`               // "logins" | "audit"
-	Expect    bool   `json:"expect_correlated"`
+	Name      string   `json:"name"`
+	First     string   `json:"first_half"` // "session" (LOGIN record + 2 events first) | "login"
+	GapSec    int      `json:"gap_seconds"`
+	BusyEvery int      `json:"unrelated_traffic_every_seconds"` // 0: silence
+	BusyKind  string   `json:"unrelated_traffic"`               // "logins" | "audit"
+	Expect    bool     `json:"expect_correlated"`
+	Stall     *rtStall `json:"sink_stall,omitempty"` // the event sink stalls across a cleanup tick (realtime_stall.go)
 }
 
 var rtScenarios = []rtScenario{
-	{"session-first-30s", "session", 30, 0, "", true},
-	{"login-first-30s", "login", 30, 0, "", true},
-	{"session-first-50s-busy-logins", "session", 50, 7, "logins", true},
-	{"session-first-130s", "session", 130, 0, "", false},
-	{"login-first-130s", "login", 130, 0, "", false},
-	{"session-first-130s-busy-logins", "session", 130, 20, "logins", false},
-	{"login-first-130s-busy-logins", "login", 130, 20, "logins", false},
-	{"session-first-130s-busy-audit", "session", 130, 20, "audit", false},
+	{"session-first-30s", "session", 30, 0, "", true, nil},
+	{"login-first-30s", "login", 30, 0, "", true, nil},
+	{"session-first-50s-busy-logins", "session", 50, 7, "logins", true, nil},
+	{"session-first-130s", "session", 130, 0, "", false, nil},
+	{"login-first-130s", "login", 130, 0, "", false, nil},
+	{"session-first-130s-busy-logins", "session", 130, 20, "logins", false, nil},
+	{"login-first-130s-busy-logins", "login", 130, 20, "logins", false, nil},
+	{"session-first-130s-busy-audit", "session", 130, 20, "audit", false, nil},
 }
 
 type rtResult struct {
@@ -46,9 +47,14 @@ type rtResult struct {
 	Expected int        `json:"expected"`
 	Ret      string     `json:"read_returned"`
 	Harness  string     `json:"harness_problem,omitempty"`
+	Timing   string     `json:"timing,omitempty"`
+	Skipped  string     `json:"not_judged,omitempty"`
 }
 
 func runRealtime(sc rtScenario, idx int, scale float64) rtResult {
+	if sc.Stall != nil {
+		return runRealtimeStall(sc, idx, scale)
+	}
 	res := rtResult{Scenario: sc}
 	enc := &recEnc{budget: -1}
 	lines := make(chan string)
@@ -167,10 +173,12 @@ func runRealtime(sc rtScenario, idx int, scale float64) rtResult {
 func realtimeMain(out string, seed uint64, scale float64) {
 	sum := hutil.NewSummary("C16", seed,
 		"real-time runs of the real Auditd.Read, one processor per scenario, all concurrently: the second half of a session (login or LOGIN record + 2 events) arrives 30-50 s after the first (inside the one-minute window: must be correlated, every event emitted) "+
-			"or 130 s after it (more than two minutes: the waiting half must have been discarded, nothing is emitted, not even late), in silence and with unrelated logins / audit sessions arriving every 7-20 s; non-trivial = the scenario ran to its end; distinct by scenario")
-	results := make([]rtResult, len(rtScenarios))
+			"or 130 s after it (more than two minutes: the waiting half must have been discarded, nothing is emitted, not even late), in silence and with unrelated logins / audit sessions arriving every 7-20 s; "+
+			"and scenarios in which the event sink STALLS for 20-40 s across the first cleanup tick (one write of an unrelated session does not return: inside RemoteLogin's flush, so that Read's loop itself is stuck, or inside AuditdEvent, so that the loop waits for the correlator's mutex in the cleanup): the first half produced during the stall (login stamped then, LOGIN record written then) or well before it, the second half 50-57 s later (measured: must be correlated) or 125 s later (must have been discarded); non-trivial = the scenario ran to its end; distinct by scenario")
+	all := append(append([]rtScenario{}, rtScenarios...), rtStallScenarios...)
+	results := make([]rtResult, len(all))
 	var wg sync.WaitGroup
-	for i, sc := range rtScenarios {
+	for i, sc := range all {
 		wg.Add(1)
 		go func(i int, sc rtScenario) {
 			defer wg.Done()
@@ -178,19 +186,41 @@ func realtimeMain(out string, seed uint64, scale float64) {
 		}(i, sc)
 	}
 	wg.Wait()
+	// every reported failure is confirmed by replaying its scenario in real time (two minutes each): one failure per
+	// verdict is reported with its scenario as the failing input, further scenarios with the same verdict are listed as notes
+	reported := map[string]bool{}
+	failOnce := func(key, what string, replay any) {
+		if reported[key] {
+			sum.Notes = append(sum.Notes, "also "+key+": "+what)
+			return
+		}
+		reported[key] = true
+		sum.FailKey("oracle", key, what, replay)
+	}
 	for _, r := range results {
-		sum.Count(r.Scenario.Name, r.Harness == "")
-		sum.Dist(fmt.Sprintf("gap_%ds", r.Scenario.GapSec))
+		sum.Count(r.Scenario.Name, r.Harness == "" && r.Skipped == "")
+		if st := r.Scenario.Stall; st != nil {
+			sum.Dist(fmt.Sprintf("sink_stalled_across_a_tick_in_%s", st.Kind))
+			sum.Dist(fmt.Sprintf("gap_%ds", st.SecondAt-st.FirstAt))
+		} else {
+			sum.Dist(fmt.Sprintf("gap_%ds", r.Scenario.GapSec))
+		}
 		sum.Sample(r)
+		gapTxt := fmt.Sprintf("the halves arrived %d s apart", r.Scenario.GapSec)
+		if r.Scenario.Stall != nil {
+			gapTxt = r.Timing
+		}
 		switch {
+		case r.Skipped != "":
+			sum.Notes = append(sum.Notes, r.Scenario.Name+": "+r.Skipped+"; "+r.Timing)
 		case r.Harness != "":
 			sum.FailKey("harness", "realtime:"+r.Scenario.Name, r.Harness, map[string]any{"realtime": r.Scenario})
 		case r.Scenario.Expect && r.Emitted != r.Expected:
-			sum.FailKey("oracle", "window:inside-not-correlated", fmt.Sprintf("%s: the halves arrived %d s apart (inside the one-minute window) but %d of the session's %d events were emitted",
-				r.Scenario.Name, r.Scenario.GapSec, r.Emitted, r.Expected), map[string]any{"realtime": r.Scenario, "observed": r})
+			failOnce("window:inside-not-correlated", fmt.Sprintf("%s: %s (inside the one-minute window) but %d of the session's %d events were emitted",
+				r.Scenario.Name, gapTxt, r.Emitted, r.Expected), map[string]any{"realtime": r.Scenario, "observed": r})
 		case !r.Scenario.Expect && r.Emitted != 0:
-			sum.FailKey("oracle", "window:stale-half-kept", fmt.Sprintf("%s: the halves arrived %d s apart (more than two minutes) but %d event(s) of the session were emitted: the waiting half was not discarded",
-				r.Scenario.Name, r.Scenario.GapSec, r.Emitted), map[string]any{"realtime": r.Scenario, "observed": r})
+			failOnce("window:stale-half-kept", fmt.Sprintf("%s: %s (more than two minutes) but %d event(s) of the session were emitted: the waiting half was not discarded",
+				r.Scenario.Name, gapTxt, r.Emitted), map[string]any{"realtime": r.Scenario, "observed": r})
 		}
 	}
 	sum.CaseFiles = nil
@@ -203,8 +233,12 @@ func replayRealtime(sc rtScenario) int {
 		fmt.Println("harness error:", r.Harness)
 		return 2
 	}
+	if r.Skipped != "" {
+		fmt.Println("not judged:", r.Skipped)
+		return 0
+	}
 	if (sc.Expect && r.Emitted != r.Expected) || (!sc.Expect && r.Emitted != 0) {
-		fmt.Printf("REPRODUCED window: %s: %d event(s) emitted, expected %d\n", sc.Name, r.Emitted, r.Expected)
+		fmt.Printf("REPRODUCED window: %s: %d event(s) emitted, expected %d; %s\n", sc.Name, r.Emitted, r.Expected, r.Timing)
 		return 1
 	}
 	fmt.Println("not reproduced")
